@@ -10,7 +10,7 @@ comparisons / nextafter exactly; any other arithmetic on an elevation aborts the
 import itertools
 import math
 
-from ..interp import Interp, World, Obj, Sym, PyVec, ThrowEx, ElemRef, Ref, NOT_HANDLED, Opaque
+from ..interp import out_param, Interp, World, Obj, Sym, PyVec, ThrowEx, ElemRef, Ref, NOT_HANDLED, Opaque
 from ..sir import pp, strip, AnalysisBroken
 from .routers import Table
 
@@ -85,7 +85,7 @@ class SinkWorld(World):
             return PyVec(sorted(getattr(self, "grid_status", {}).get(st, [])))
         if name == "neighbors_indices":
             i = it.rv(it.eval(args[0], frame))
-            return PyVec(list(self.adj[i]))
+            return out_param(it, frame, args, 1, PyVec(list(self.adj[i])))
         if name == "dfs_indices":
             return PyVec(list(self.dfs))
         if name == "receivers":
